@@ -17,9 +17,14 @@ N3 == IF Quick THEN 3 ELSE 4     \* universe of two paging hops / paged members
 
 PageSizes == {-1, 0, 1, 2, 3, 4}
 Maxes == {0, 2, 3}
-HopsFull == {[n |-> n, max |-> m, link |-> lk] : n \in PageSizes, m \in Maxes, lk \in BOOLEAN}
-HopsMid == {[n |-> n, max |-> m, link |-> lk] : n \in {0, 1, 2, 3}, m \in {0, 2}, lk \in BOOLEAN}
-HopsSmall == {[n |-> n, max |-> 0, link |-> lk] : n \in {1, 2, 3}, lk \in BOOLEAN}
+Hop(n, m, lk) == [n |-> n, max |-> m, link |-> lk]
+HopsFull == {Hop(n, m, lk) : n \in PageSizes, m \in Maxes, lk \in BOOLEAN}
+HopsMid == {Hop(n, m, lk) : n \in (IF Quick THEN {0, 1, 2} ELSE {0, 1, 2, 3}), m \in {0, 2}, lk \in BOOLEAN}
+HopsSmall == {Hop(n, 0, lk) : n \in (IF Quick THEN {1, 2} ELSE {1, 2, 3}), lk \in BOOLEAN}
+HopsTiny == IF Quick THEN {Hop(1, 0, TRUE), Hop(2, 0, FALSE)} ELSE HopsSmall
+\* consumer stop points (0: never declines)
+KsFull(u) == IF Quick THEN {0, 1, 2, 3} ELSE 0..u + 1
+Ks(u) == IF Quick THEN {0, 1, 2} ELSE 0..u + 1
 
 Mem(S) == [t |-> "mem", s |-> S, absent |-> FALSE]
 Absent == [t |-> "mem", s |-> {}, absent |-> TRUE]
@@ -33,52 +38,55 @@ Mems(n) == {Mem(S) : S \in SUBSET (1..n)}
 MemsA(n) == Mems(n) \cup {Absent}
 \* second members of a unifier: a few sets that overlap, interleave with or miss the first
 Seconds(n) == {Mem(S) : S \in {{}, {1}, {n}, {x \in 1..n : x % 2 = 0}, {x \in 1..n : x % 2 = 1}, 1..n}}
+SecondsA(n) == IF Quick THEN {Absent, Mem({}), Mem({1, n})} ELSE MemsA(n)
 Preds(n) == {1..n, {x \in 1..n : x % 2 = 1}, {x \in 1..n : x > 1 /\ x < n}, {}}
-\* families of stacks: [kind, u |-> size of the top-level universe, starts, nodes]
-Fam(kind, u, nodes) == [kind |-> kind, u |-> u, starts |-> IF kind = "refs" THEN {0} ELSE 0..2 * u + 1, nodes |-> nodes]
+
+\* families of stacks: [kind, u |-> size of the top-level universe, starts, ks, nodes]
+Fam(kind, u, ks, nodes) == [kind |-> kind, u |-> u, starts |-> IF kind = "refs" THEN {0} ELSE 0..2 * u + 1, ks |-> ks, nodes |-> nodes]
 Repos ==
-  <<Fam("repos", N1, Mems(N1)),
-    Fam("repos", N1, {Http(1, h, m) : h \in HopsFull, m \in Mems(N1)}),
-    Fam("repos", N3, {Http(2, h, Http(1, g, m)) : h \in HopsMid, g \in HopsMid, m \in Mems(N3)}),
-    Fam("repos", N2, {Select(p, m) : p \in Preds(N2), m \in Mems(N2)}),
-    Fam("repos", N2, {Http(1, h, Select(p, m)) : h \in HopsMid, p \in Preds(N2), m \in Mems(N2)}),
-    Fam("repos", N2, {Select(p, Http(1, h, m)) : h \in HopsMid, p \in Preds(N2), m \in Mems(N2)}),
-    Fam("repos", N2, {Debug(Http(1, h, Debug(m))) : h \in HopsSmall, m \in Mems(N2)}),
-    Fam("repos", N2, {Unify(m, m2) : m \in Mems(N2), m2 \in Mems(N2)}),
-    Fam("repos", N2, {Http(1, h, Unify(m, m2)) : h \in HopsMid, m \in Mems(N2), m2 \in Seconds(N2)}),
-    Fam("repos", N3, {Unify(Http(1, h, m), Http(2, g, m2)) : h \in HopsMid, g \in HopsSmall, m \in Mems(N3), m2 \in Seconds(N3)})>>
+  <<Fam("repos", N1, 0..N1 + 1, Mems(N1)),
+    Fam("repos", N1, KsFull(N1), {Http(1, h, m) : h \in HopsFull, m \in Mems(N1)}),
+    Fam("repos", N3, Ks(N3), {Http(2, h, Http(1, g, m)) : h \in HopsMid, g \in HopsSmall, m \in Mems(N3)}),
+    Fam("repos", N2, 0..N2 + 1, {Select(p, m) : p \in Preds(N2), m \in Mems(N2)}),
+    Fam("repos", N2, Ks(N2), {Http(1, h, Select(p, m)) : h \in HopsSmall, p \in Preds(N2), m \in Mems(N2)}),
+    Fam("repos", N2, Ks(N2), {Select(p, Http(1, h, m)) : h \in HopsSmall, p \in Preds(N2), m \in Mems(N2)}),
+    Fam("repos", N2, Ks(N2), {Debug(Http(1, h, Debug(m))) : h \in HopsSmall, m \in Mems(N2)}),
+    Fam("repos", N2, Ks(N2), {Unify(m, m2) : m \in Mems(N2), m2 \in Seconds(N2)}),
+    Fam("repos", N3, Ks(N3), {Http(1, h, Unify(m, m2)) : h \in HopsMid, m \in Mems(N3), m2 \in Seconds(N3)}),
+    Fam("repos", N3, Ks(N3), {Unify(Http(1, h, m), Http(2, g, m2)) : h \in HopsMid, g \in HopsTiny, m \in Mems(N3), m2 \in Seconds(N3)})>>
 
 \* Sub changes the universe: the view has cnt elements of the N2 underneath
 SubFam(lo, cnt) ==
-  Fam("repos", cnt, {Sub(lo, cnt, m) : m \in Mems(N2)}
-                    \cup {Http(1, h, Sub(lo, cnt, m)) : h \in HopsSmall, m \in Mems(N2)}
-                    \cup {Sub(lo, cnt, Http(1, h, m)) : h \in HopsSmall, m \in Mems(N2)})
+  Fam("repos", cnt, Ks(cnt),
+      {Sub(lo, cnt, m) : m \in Mems(N2)}
+        \cup {Http(1, h, Sub(lo, cnt, m)) : h \in HopsSmall, m \in Mems(N2)}
+        \cup {Sub(lo, cnt, Http(1, h, m)) : h \in HopsSmall, m \in Mems(N2)})
 Subs == <<SubFam(0, N2), SubFam(1, N2 - 2), SubFam(1, N2 - 1), SubFam(0, N2 - 1)>>
 
 \* tags: as repositories, but the repository may be unknown to a registry, and
 \* Select / Sub (which admit / rename the listed repository) leave the items alone
 Tags ==
-  <<Fam("tags", N2, {Http(1, h, m) : h \in HopsMid, m \in MemsA(N2)}),
-    Fam("tags", N3, {Unify(m, m2) : m \in MemsA(N3), m2 \in MemsA(N3)}),
-    Fam("tags", N3, {Http(1, h, Unify(m, m2)) : h \in HopsSmall, m \in MemsA(N3), m2 \in MemsA(N3)}),
-    Fam("tags", N3, {Unify(Http(1, h, m), m2) : h \in HopsMid, m \in MemsA(N3), m2 \in MemsA(N3)}),
-    Fam("tags", N3, {Unify(m2, Http(1, h, m)) : h \in HopsMid, m \in MemsA(N3), m2 \in MemsA(N3)}),
-    Fam("tags", N3, {Sub(1, 1, Select({}, Http(1, h, m))) : h \in HopsSmall, m \in MemsA(N3)})>>
+  <<Fam("tags", N2, Ks(N2), {Http(1, h, m) : h \in HopsMid, m \in MemsA(N2)}),
+    Fam("tags", N3, Ks(N3), {Unify(m, m2) : m \in MemsA(N3), m2 \in MemsA(N3)}),
+    Fam("tags", N3, Ks(N3), {Http(1, h, Unify(m, m2)) : h \in HopsSmall, m \in MemsA(N3), m2 \in SecondsA(N3)}),
+    Fam("tags", N3, Ks(N3), {Unify(Http(1, h, m), m2) : h \in HopsMid, m \in MemsA(N3), m2 \in SecondsA(N3)}),
+    Fam("tags", N3, Ks(N3), {Unify(m2, Http(1, h, m)) : h \in HopsMid, m \in MemsA(N3), m2 \in SecondsA(N3)}),
+    Fam("tags", N3, Ks(N3), {Sub(1, 1, Select({}, Http(1, h, m))) : h \in HopsSmall, m \in MemsA(N3)})>>
 
 \* referrers: no start point; ociclient does not page them
 Refs ==
-  <<Fam("refs", N2, {Http(1, h, m) : h \in HopsMid, m \in MemsA(N2)}),
-    Fam("refs", N3, {Http(2, h, Http(1, g, m)) : h \in HopsSmall, g \in HopsSmall, m \in MemsA(N3)}),
-    Fam("refs", N3, {Unify(m, m2) : m \in MemsA(N3), m2 \in MemsA(N3)}),
-    Fam("refs", N3, {Http(1, h, Unify(m, m2)) : h \in HopsSmall, m \in MemsA(N3), m2 \in MemsA(N3)}),
-    Fam("refs", N3, {Unify(Http(1, h, m), m2) : h \in HopsSmall, m \in MemsA(N3), m2 \in MemsA(N3)}),
-    Fam("refs", N3, {Debug(Select({}, Sub(0, 1, m))) : m \in MemsA(N3)})>>
+  <<Fam("refs", N2, 0..N2 + 1, {Http(1, h, m) : h \in HopsMid, m \in MemsA(N2)}),
+    Fam("refs", N3, Ks(N3), {Http(2, h, Http(1, g, m)) : h \in HopsSmall, g \in HopsSmall, m \in MemsA(N3)}),
+    Fam("refs", N3, Ks(N3), {Unify(m, m2) : m \in MemsA(N3), m2 \in MemsA(N3)}),
+    Fam("refs", N3, Ks(N3), {Http(1, h, Unify(m, m2)) : h \in HopsSmall, m \in MemsA(N3), m2 \in MemsA(N3)}),
+    Fam("refs", N3, Ks(N3), {Unify(Http(1, h, m), m2) : h \in HopsSmall, m \in MemsA(N3), m2 \in MemsA(N3)}),
+    Fam("refs", N3, Ks(N3), {Debug(Select({}, Sub(0, 1, m))) : m \in MemsA(N3)})>>
 
 Families == Repos \o Subs \o Tags \o Refs
 
 MCInit ==
   /\ \E j \in 1..Len(Families) : LET f == Families[j] IN
-       \E nd \in f.nodes, a \in f.starts, k \in 0..f.u + 1 :
+       \E nd \in f.nodes, a \in f.starts, k \in f.ks :
           cfg = [kind |-> f.kind, a |-> a, k |-> k, node |-> nd]
   /\ stream = <<>> /\ i = 0 /\ calls = <<>> /\ nreq = 0 /\ st = "start"
 MCSpec == MCInit /\ [][Next]_vars /\ WF_vars(Next)
